@@ -13,12 +13,14 @@ Definition hproc (salt : Z) : procfn := fun ins =>
 (* what the implementation showed after one operation *)
 Record obs := Obs {
   o_rejected : bool;                          (* the call panicked with a declared (non-runtime) error *)
+  o_panic : bool;                             (* a read during which a harness processor panicked (recovered by the harness) *)
   o_value : option Z;                         (* Value() of a read *)
   o_scratch : option Z;                       (* harness: from-scratch evaluation on its own mirror of the wiring *)
   o_changes : list (nat * (nat * bool * nat)) (* id, (Version(), State()==Stale, execution counter): entries that changed *)
 }.
 Definition row := (nat * bool * nat)%type.
-Inductive case := CHist (decls : list decl) (table0 : list row) (ops : list (op * obs)).
+(* pans: per node, Some salt = its processor panics when its hash (hproc salt) is divisible by 5 *)
+Inductive case := CHist (decls : list decl) (pans : list (option N)) (table0 : list row) (ops : list (op * obs)).
 
 (* constructors used by the generated case files (all numerals are N literals there) *)
 Definition opS (n v : N) : op := SetParam (N.to_nat n) (Z.of_N v).
@@ -35,6 +37,12 @@ Definition dS (fs : list (string * bool)) (salt : N) : decl := DStruct fs (hproc
 Definition hprocF (salt : Z) : procfn := fun ins =>
   let h := hproc salt ins in if (h mod 3 =? 0)%Z then (hmod + h)%Z else h.
 Definition dSF (fs : list (string * bool)) (salt : N) : decl := DStruct fs (hprocF (Z.of_N salt)).
+
+Definition pan_of (pans : list (option N)) : pantab := fun n ins =>
+  match nth_error pans n with
+  | Some (Some salt) => (hproc (Z.of_N salt) ins mod 5 =? 0)%Z
+  | _ => false
+  end.
 
 Definition row_eqb (a b : row) : bool :=
   let '(v, s, e) := a in let '(v', s', e') := b in (v =? v') && Bool.eqb s s' && (e =? e').
@@ -57,22 +65,35 @@ Definition model_table (st : store) : option (list row) := map_opt (model_row st
 Definition table_ok (st : store) (t : list row) : bool :=
   match model_table st with Some m => rows_eqb m t | None => false end.
 
-Fixpoint corr_run (s : state) (t : list row) (ops : list (op * obs)) : bool :=
+(* one operation of the model; reads go through pvalue (processors may panic) *)
+Definition mstep (pan : pantab) (s : state) (o : op) : option (state * option pres) :=
+  match o with
+  | Read n =>
+      do '(st', r) <- pvalue sorted_order pan (fuel_of (nodes s)) (nodes s) n;
+      Some ({| nodes := st'; clock := S (clock s) |}, Some r)
+  | _ => do '(s', _) <- step sorted_oracle s o; Some (s', None)
+  end.
+
+Fixpoint corr_run (pan : pantab) (s : state) (t : list row) (ops : list (op * obs)) : bool :=
   match ops with
   | [] => true
   | (o, ob) :: r =>
       let t' := apply_changes t (o_changes ob) in
-      match step sorted_oracle s o with
-      | None => o_rejected ob && rows_eqb t t' && optZ_eqb (o_value ob) None && corr_run
+      match mstep pan s o with
+      | None => o_rejected ob && negb (o_panic ob) && rows_eqb t t' && optZ_eqb (o_value ob) None && corr_run pan
                   {| nodes := nodes s; clock := S (clock s) |} t' r
       | Some (s', res) =>
           negb (o_rejected ob)
-          && optZ_eqb (o_value ob) (match res with RVal v => Some v | RDone => None end)
-          && table_ok (nodes s') t' && corr_run s' t' r
+          && (match res with
+              | Some (POk v) => negb (o_panic ob) && optZ_eqb (o_value ob) (Some v)
+              | Some PPanic => o_panic ob && optZ_eqb (o_value ob) None
+              | None => negb (o_panic ob) && optZ_eqb (o_value ob) None
+              end)
+          && table_ok (nodes s') t' && corr_run pan s' t' r
       end
   end.
 Definition corr_ok (c : case) : bool :=
-  match c with CHist ds t0 ops => table_ok (nodes (init ds)) t0 && corr_run (init ds) t0 ops end.
+  match c with CHist ds pans t0 ops => table_ok (nodes (init ds)) t0 && corr_run (pan_of pans) (init ds) t0 ops end.
 
 (* ---------- the property, on what the implementation returned ---------- *)
 (* reachability in the tracked wiring (fuel = number of nodes + 1) *)
@@ -115,13 +136,16 @@ Definition target (o : op) : id :=
   match o with SetParam n _ | Connect n _ _ | Disconnect n _ | Read n => n end.
 
 (* per node checks between two consecutive observations *)
-Fixpoint rows_step (g : list (list (string * port) * procfn + val)) (o : op) (accepted : bool) (n : id) (t t' : list row) (touched : list bool)
+Fixpoint rows_step (g : list (list (string * port) * procfn + val)) (o : op) (completed accepted : bool) (n : id) (t t' : list row) (touched : list bool)
   : bool :=
   match t, t', touched with
   | [], [], [] => true
   | (v, _, e) :: tr, (v', s', e') :: tr', tc :: tcr =>
-      (* the node just read reports State() = Processed (neither Stale nor Error) *)
-      (match o with Read r => if accepted && (r =? n) then negb s' else true | _ => true end) &&
+      (* the node just read reports State() = Processed (neither Stale nor Error); a node whose read
+         panicked does not claim to be Processed (its Value() would then serve a cache without executing) *)
+      (match o with
+       | Read r => if r =? n then (if completed then negb s' else if accepted then s' else true) else true
+       | _ => true end) &&
       (if is_param g n then
          (* update counter: +1 exactly when this parameter was set, never executes *)
          (e' =? 0) && (e =? 0) &&
@@ -133,17 +157,19 @@ Fixpoint rows_step (g : list (list (string * port) * procfn + val)) (o : op) (ac
          (match o with
           | Read _ => if accepted then (e' =? e) || ((e' =? S e) && tc) else (e' =? e)
           | _ => e' =? e end))
-      && rows_step g o accepted (S n) tr tr' tcr
+      && rows_step g o completed accepted (S n) tr tr' tcr
   | _, _, _ => false
   end.
 
-Fixpoint prop_run (g : list (list (string * port) * procfn + val)) (t : list row) (touched : list bool) (ops : list (op * obs)) : bool :=
+Fixpoint prop_run (pan : pantab) (g : list (list (string * port) * procfn + val)) (t : list row) (touched : list bool) (ops : list (op * obs)) : bool :=
   match ops with
   | [] => true
   | (o, ob) :: r =>
       let t' := apply_changes t (o_changes ob) in
       let accepted := negb (o_rejected ob) in
-      rows_step g o accepted 0 t t' touched &&
+      (* only a read can be reported as panicked, and never together with a rejection *)
+      (if o_panic ob then negb (o_rejected ob) && (match o with Read _ => true | _ => false end) else true) &&
+      rows_step g o (accepted && negb (o_panic ob)) accepted 0 t t' touched &&
       (if accepted then
          match g_edit g o with
          | None => false        (* accepted an operation that cannot be applied to the wiring *)
@@ -153,9 +179,11 @@ Fixpoint prop_run (g : list (list (string * port) * procfn + val)) (t : list row
               | Read n =>
                   (* freshness: the value read = from-scratch evaluation (Coq, on the tracked wiring)
                      = from-scratch evaluation (harness, on its own mirror) *)
-                  match o_value ob with
-                  | Some x => optZ_eqb (eval_scratch (S (length gr)) gr n) (Some x) && optZ_eqb (o_scratch ob) (Some x)
-                  | None => false end
+                  (* ... INCLUDING the outcome: the read panics exactly when the from-scratch evaluation does *)
+                  match eval_p pan (S (length gr)) gr n, o_value ob with
+                  | Some (POk y), Some x => negb (o_panic ob) && Z.eqb x y && optZ_eqb (o_scratch ob) (Some x)
+                  | Some PPanic, None => o_panic ob && optZ_eqb (o_scratch ob) None
+                  | _, _ => false end
               | _ => optZ_eqb (o_value ob) None end) &&
              let touched' :=
                match o with
@@ -163,15 +191,15 @@ Fixpoint prop_run (g : list (list (string * port) * procfn + val)) (t : list row
                                (seq 0 (length touched))
                | _ => map (fun k => nth k touched true || in_cone gr k (target o)) (seq 0 (length touched))
                end in
-             prop_run g' t' touched' r
+             prop_run pan g' t' touched' r
          end
-       else rows_eqb t t' && optZ_eqb (o_value ob) None && prop_run g t' touched r)
+       else rows_eqb t t' && optZ_eqb (o_value ob) None && prop_run pan g t' touched r)
   end.
 
 Definition prop_ok (c : case) : bool :=
   match c with
-  | CHist ds t0 ops =>
+  | CHist ds pans t0 ops =>
       (length t0 =? length ds) &&
       forallb (fun r : row => let '(v, _, e) := r in (v =? 0) && (e =? 0)) t0 &&
-      prop_run (g_init ds) t0 (map (fun _ => true) ds) ops
+      prop_run (pan_of pans) (g_init ds) t0 (map (fun _ => true) ds) ops
   end.
